@@ -317,6 +317,37 @@ theorem QInv.add {p : QP} (hp : p.ok) {hist : List AddRec} {clock : Int} {q : Qu
         subst hgl
         exact ⟨_, hnew, hr, by simp only; omega, by simp⟩
 
+/-! ### `async_remove_answers` -/
+
+theorem Dict.keys_withdraw (d : Dict) (rm : List RecId) (x : RecId) : x ∈ (d.withdraw rm).keys ↔ x ∈ d.keys ∧ x ∉ rm := by
+  simp only [Dict.withdraw, Dict.keys, List.map_map, List.mem_map, List.mem_filter, GenFacts.q_remove_keep, Function.comp,
+    Bool.not_eq_true', List.contains_eq_mem, decide_eq_false_iff_not]
+  constructor
+  · rintro ⟨e, ⟨he, hne⟩, rfl⟩; exact ⟨⟨e, he, rfl⟩, hne⟩
+  · rintro ⟨⟨e, he, rfl⟩, hne⟩; exact ⟨e, ⟨he, hne⟩, rfl⟩
+
+theorem map_sk_removeRecords (q : Queue) (rm : List RecId) : (q.removeRecords rm).groups.map Group.sk = q.groups.map Group.sk := by
+  simp [Queue.removeRecords, Group.sk, Function.comp_def]
+
+theorem mem_removeRecords {q : Queue} {rm : List RecId} {g' : Group} (h : g' ∈ (q.removeRecords rm).groups) :
+    ∃ g ∈ q.groups, g'.sa = g.sa ∧ g'.born = g.born ∧ ∀ r, r ∈ g'.answers.keys ↔ r ∈ g.answers.keys ∧ r ∉ rm := by
+  simp only [Queue.removeRecords, List.mem_map] at h
+  obtain ⟨g, hg, rfl⟩ := h
+  exact ⟨g, hg, rfl, rfl, fun r => Dict.keys_withdraw _ _ _⟩
+
+/-- a withdrawal (at a time that has not passed the armed timer) keeps the invariant: the skeleton and the timer are
+untouched, the records that stay have the origin they had -/
+theorem QInv.removeRecords {p : QP} {hist : List AddRec} {clock : Int} {q : Queue} (hI : QInv p hist clock q)
+    {c : Int} (hc : clock ≤ c) (hdue : ∀ d, q.timer = some d → c ≤ d) (rm : List RecId) :
+    QInv p hist c (q.removeRecords rm) := by
+  refine ⟨?_, ?_, fun a ha => by have := hI.hist a ha; omega⟩
+  · show SkInv p c ((q.removeRecords rm).groups.map Group.sk) q.timer
+    rw [map_sk_removeRecords]; exact hI.sk.mono hc hdue
+  · intro g' hg' r hr
+    obtain ⟨g, hg, e1, e2, e3⟩ := mem_removeRecords hg'
+    obtain ⟨a, ha, f1, f2, f3⟩ := hI.origin g hg r ((e3 r).mp hr).1
+    exact ⟨a, ha, f1, by rw [e1]; exact f2, by rw [e2]; exact f3⟩
+
 /-! ### `async_ready` -/
 
 /-- what the `while` loop of `async_ready` returns -/
